@@ -558,6 +558,7 @@ void verif_work_tick(int phase, unsigned long long units) {
     long long c = g_workCostNs[phase < 0 || phase > 2 ? 2 : phase] * (long long)units;
     if (c > 0) vsim::advance(c);
     g_workTicks++;
+    { static const bool traceWork = getenv("VERIF_TRACE_TICKS") != nullptr; if (traceWork) fprintf(stderr, "work tick %ld phase %d units %llu t %lld us\n", g_workTicks, phase, units, vsim::now() / 1000); }
     H->workTickTimes.push_back(vsim::now());
     if (c > H->maxWorkTickNs) H->maxWorkTickNs = c;
     if (g_workYield) vsim::yield(vsim::S_TICK);
